@@ -13,6 +13,7 @@ type Parser struct {
 	didEndStatement bool
 	inFunction      bool
 	inLoop          bool
+	lexErr          error
 }
 
 type parseRule struct {
@@ -107,6 +108,11 @@ func (p *Parser) error(pos int, msg string) SyntaxError {
 func (p *Parser) advance() (Token, error) {
 	t, err := p.lexer.Next()
 	if err != nil {
+		// remember the first lexical error: some callers of consume drop it,
+		// and the parse error that follows would point at the wrong token
+		if p.lexErr == nil {
+			p.lexErr = err
+		}
 		return t, err
 	}
 	p.previous = p.current
@@ -954,7 +960,16 @@ func (p *Parser) parseFunction() (ExprFunction, error) {
 	}, nil
 }
 
-func (p *Parser) ParseExpression() (Expr, error) {
+func (p *Parser) ParseExpression() (expr Expr, err error) {
+	defer func() {
+		if p.lexErr != nil {
+			expr, err = nil, p.lexErr
+		}
+	}()
+	return p.parseExpression()
+}
+
+func (p *Parser) parseExpression() (Expr, error) {
 	if _, err := p.advance(); err != nil {
 		return nil, err
 	}
@@ -968,7 +983,16 @@ func (p *Parser) ParseExpression() (Expr, error) {
 	return expr, nil
 }
 
-func (p *Parser) Parse() (Program, error) {
+func (p *Parser) Parse() (prog Program, err error) {
+	defer func() {
+		if p.lexErr != nil {
+			err = p.lexErr
+		}
+	}()
+	return p.parse()
+}
+
+func (p *Parser) parse() (Program, error) {
 	prog := Program{}
 	rules := make([]Rule, 0)
 	functions := make([]ExprFunction, 0)
